@@ -194,6 +194,7 @@ PROFILE = {
     'vanish_at_accept_pct': 15,      # direct WebSocket opens whose peer is gone at the handshake
     'client_flavours': ['plain', 'plain', 'plain', 'plain', 'jsonp', 'gzip', 'jsonp+gzip'],
     'world_kw_st': st.fixed_dictionaries({
+        'timer_jitter': st.sampled_from([0.0, 0.0, 2.0 ** -12]),   # timers fire slightly late
         'handler_delay': st.sampled_from([{}, {}, {}, {'disconnect': 0.25}, {'message': 0.25},
                                           {'disconnect': 0.25, 'message': 0.25}])}),
     'weights': {'open': 5, 'poll': 3, 'post': 2, 'probe_step': 3, 'ws_send': 1, 'ws_close': 2,
